@@ -79,8 +79,8 @@ def property_fails_on(op, impl):
         else:
             if status == 403:
                 return "%s /%s with an admin identity (or no admin list) answered 403" % (m, "/".join(segs))
-            if status == 200:
-                bad = fanout_missing(f, reqs)
+            if status in (200, 502):
+                bad = fanout_missing(f, reqs, status)
                 if bad:
                     return bad
     if segs and segs[0] == "config" and f.get("cidr") == "1":
@@ -95,41 +95,54 @@ def property_fails_on(op, impl):
     return None
 
 
-def fanout_missing(f, reqs):
-    """With an admin identity and a 200: every configured nsqlookupd and every producer the
-    responding upstreams report got the command (DESIGN: admin_fanout)."""
+def fanout_missing(f, reqs, status):
+    """With an admin identity and an answer 200/502 (the request got past validation): the action is carried out on
+    every relevant nsqd and nsqlookupd — evaluated on the requests the stub upstreams recorded. The producers are
+    the ones the responding upstreams report (GET side); a 502 is legitimate only when that lookup found nobody
+    to ask. In particular nsqlookupds that fail the POSTed command do not excuse skipping the nsqds."""
     got = [] if reqs in ("-", "*") else reqs.split("|")
     lk = [] if f.get("lk", "-") == "-" else [t.split(":") for t in f["lk"].split(",")]
     nd = {} if f.get("nd", "-") == "-" else {t.split(":")[0]: t.split(":") for t in f["nd"].split(",")}
+    na = [] if f.get("na", "-") == "-" else f["na"].split(",")
     segs = f["segs"]
+    where = "%s /%s" % (f["m"], "/".join(segs))
     posts = [g for g in got if g.startswith("P:")]
-    if f["m"] == "POST" and len(segs) == 2:       # create
-        for l in lk:
-            if not any(p.startswith("P:%s/topic/create?" % l[0]) for p in posts):
-                return "create: nsqlookupd %s did not receive topic/create (%s)" % (l[0], reqs)
+    lk_up = [l for l in lk if l[1] == "1"]
+    via_lookupd = set(x for l in lk_up if l[2] != "-" for x in l[2].split("+"))
+    need_lookupd = None       # substring of the command every configured nsqlookupd must have received
+    if f["m"] == "POST" and len(segs) == 2:            # create topic [+ channel]
+        need_lookupd = "/topic/create?"
+        if unhex(f.get("bchan", "-")) == "":
+            lookup_ok, prods = True, set()
+        else:
+            lookup_ok, prods = bool(lk_up), via_lookupd
+    elif f["m"] == "DELETE" and len(segs) == 3 and segs[1] == "nodes":
+        need_lookupd = "/topic/tombstone?"
+        node = segs[2]
+        lookup_ok = node in nd and nd[node][1] == "1"
+        prods = {node} if lookup_ok else set()
+    else:                                              # delete / pause / unpause / empty
+        if lk:
+            lookup_ok, prods = bool(lk_up), via_lookupd
+        else:
+            lookup_ok = any(n in nd and nd[n][1] == "1" for n in na)
+            prods = set(n for n in na if n in nd and nd[n][1] == "1" and nd[n][2] == "1")
+        if f["m"] == "DELETE":
+            need_lookupd = "/delete?"
+    prods = set(p for p in prods if p in nd)           # an address nobody listens on cannot record anything
+    missing = sorted(p for p in prods if not any(q.startswith("P:%s/" % p) for q in posts))
+    if status == 502 and lookup_ok:
+        return "%s answered 502 although the producer lookup succeeded%s (recorded: %s)" % (
+            where, "; nsqd %s never received the command" % ", ".join(missing) if missing else "", reqs)
+    if not lookup_ok:
         return None
-    if f["m"] == "DELETE" and len(segs) == 3 and segs[1] == "nodes":
+    if missing:
+        return "%s: nsqd %s, reported as a producer by a responding upstream, never received the command (recorded: %s)" % (
+            where, ", ".join(missing), reqs)
+    if need_lookupd:
         for l in lk:
-            if not any(p.startswith("P:%s/topic/tombstone?" % l[0]) for p in posts):
-                return "tombstone: nsqlookupd %s did not receive topic/tombstone (%s)" % (l[0], reqs)
-        return None
-    # topic / channel actions and deletes: every producer reported by a responding upstream
-    prods = set()
-    if lk:
-        for l in lk:
-            if l[1] == "1" and l[2] != "-":
-                prods.update(x for x in l[2].split("+") if x in nd)
-    else:
-        na = [] if f.get("na", "-") == "-" else f["na"].split(",")
-        prods.update(n for n in na if n in nd and nd[n][1] == "1" and nd[n][2] == "1")
-    for p in prods:
-        if not any(q.startswith("P:%s/" % p) for q in posts):
-            return "action on /%s: producer %s reported by an upstream did not receive the command (%s)" % (
-                "/".join(segs), p, reqs)
-    if f["m"] == "DELETE":
-        for l in lk:
-            if not any(p.startswith("P:%s/" % l[0]) and "/delete?" in p for p in posts):
-                return "delete: nsqlookupd %s did not receive the delete (%s)" % (l[0], reqs)
+            if not any(p.startswith("P:%s/" % l[0]) and need_lookupd in p for p in posts):
+                return "%s: nsqlookupd %s did not receive %s (recorded: %s)" % (where, l[0], need_lookupd.strip("/?"), reqs)
     return None
 
 
